@@ -64,7 +64,9 @@ func isLoopbackLiteral(host string) bool {
 }
 
 var c11Schemes = []string{"https", "https", "https", "http", "http", "myapp", "com.example.app"}
-var c11Hosts = []string{"rp.example", "rp.example", "sub.rp.example", "localhost", "app.localhost", "127.0.0.1", "127.0.0.1", "127.0.0.2", "[::1]", "10.0.0.1", "[2001:db8::1]"}
+var c11Hosts = []string{"rp.example", "rp.example", "sub.rp.example", "localhost", "app.localhost", "127.0.0.1", "127.0.0.1", "127.0.0.2", "[::1]", "10.0.0.1", "[2001:db8::1]",
+	// remote hosts that only look local
+	"login.localhost.attacker.example", "localhost.attacker.example", "notlocalhost", "127.0.0.1.attacker.example", "127.0.0.1.nip.example"}
 var c11Ports = []string{"", "", "", "8080", "443", "3846"}
 var c11Paths = []string{"", "/", "/cb", "/cb", "/cb/", "/a/b", "/CB", "/cb.html"}
 var c11Queries = []string{"", "", "", "x=1", "x=1&y=2", "r=https%3A%2F%2Fe.example%2F"}
